@@ -16,6 +16,7 @@ import (
 	"fmt"
 	"os"
 	"path/filepath"
+	"runtime"
 	"strconv"
 
 	"github.com/skycoin/skycoin/src/cipher/crypto"
@@ -40,6 +41,10 @@ func marker(dir string) {
 		f.Close()
 	}
 }
+
+// every syscall of the operation is issued by the main thread, so that the per-thread
+// syscall ordinals strace counts for `when=` are the same in every run
+func init() { runtime.LockOSThread() }
 
 func main() {
 	logging.Disable()
